@@ -6,7 +6,7 @@ import json
 import logging
 import re
 import urllib.parse
-from collections.abc import Collection, Iterable
+from collections.abc import Collection, Iterable, Mapping
 from typing import Any, AsyncContextManager, Literal, TypedDict
 
 from kopf._cogs.aiokits import aiovalues
@@ -159,16 +159,22 @@ async def serve_admission_request(
     )
 
     # Retrieve the handlers to be executed; maybe only one if the webhook server provides a hint.
+    # NB: the handlers are executed one by one, and their outcomes are kept per handler, not per id:
+    # two different functions can be registered under one id (e.g. a validating and a mutating
+    # `def check` of one name), and none of their outcomes (e.g. a denial) may overwrite another's.
     handlers_ = registry._webhooks.get_handlers(cause)
-    state = progression.State.from_scratch().with_handlers(handlers_)
-    outcomes = await execution.execute_handlers_once(
-        lifecycle=lifecycles.all_at_once,
-        settings=settings,
-        handlers=handlers_,
-        cause=cause,
-        state=state,
-        default_errors=execution.ErrorsMode.PERMANENT,
-    )
+    outcomes: dict[Any, execution.Outcome] = {}
+    for index, handler in enumerate(handlers_):
+        state = progression.State.from_scratch().with_handlers([handler])
+        handler_outcomes = await execution.execute_handlers_once(
+            lifecycle=lifecycles.all_at_once,
+            settings=settings,
+            handlers=[handler],
+            cause=cause,
+            state=state,
+            default_errors=execution.ErrorsMode.PERMANENT,
+        )
+        outcomes.update({(index, id): outcome for id, outcome in handler_outcomes.items()})
 
     # Construct the response as per Kubernetes's conventions and expectations.
     response = build_response(
@@ -207,7 +213,7 @@ def find_resource(
 def build_response(
         *,
         request: reviews.Request,
-        outcomes: dict[ids.HandlerId, execution.Outcome],
+        outcomes: Mapping[Any, execution.Outcome],
         warnings: Collection[str],
         jsonpatch: patches.JSONPatch,
 ) -> reviews.Response:
